@@ -3,7 +3,13 @@
 (* histories of at most Depth actions, for every configuration in Cfgs, and  *)
 (* over all sessions of at most MaxRuns such runs on one Interpreter, each   *)
 (* run with a configuration of its own (C12: the flags and the open-file     *)
-(* function in force are those of the current Execute).                      *)
+(* function in force are those of the current Execute).  Rich = 0: the menu   *)
+(* of the files f1 f2 and the commands cat, cat3 plus ONE representative of   *)
+(* each newer dimension (/dev/null, a /dev/.. spelling, a blank command line  *)
+(* in the three forms, the directory / skipped / assignment operands; C13: a  *)
+(* payload with an interior newline and one with CR LF in it, to stdout, a    *)
+(* file and a command); Rich = 1: all of them.  C13 runs take every newline   *)
+(* output mode in NLs.                                                        *)
 EXTENDS IOStreams, Json
 
 CONSTANT Depth,        \* actions before the ending
@@ -11,21 +17,51 @@ CONSTANT Depth,        \* actions before the ending
          FailMax,      \* C13: the stdout writer fails at offsets 0..FailMax (and never), plain and buffered,
                        \*      in every output mode
          MaxRuns,      \* Execute calls on one Interpreter
-         Modes         \* C13: the output modes (a subset of OModes)
+         Modes,        \* C13: the output modes (a subset of OModes)
+         NLs,          \* C13: the newline output modes (a subset of NLModes; CRLF only with the default output mode)
+         Rich          \* 0: one representative of each newer dimension, 1: all
 
 ASSUME PrintT(ToJson([callsites |-> CallSites]))
+ASSUME {NameSeq[k] : k \in 1..Len(NameSeq)} = SNames /\ Len(NameSeq) = Cardinality(SNames)
+
+\* CRLF conversion: idempotent, leaves no bare LF, changes nothing but the CRs it adds
+NoBareLF(s) == \A i \in 1..Len(s) : s[i] = LF => (i > 1 /\ s[i - 1] = CR)
+StripCR(s) == SelectSeq(s, LAMBDA ch : ch # CR)
+CrlfSamples == {ShapeArg(sh, 1) : sh \in Shapes} \cup {<<>>, <<LF>>, <<LF, LF>>, <<CR>>, <<CR, LF, LF>>, <<c_a, CR, CR, LF>>, <<c_a, LF, CR, LF>>}
+ASSUME \A s \in CrlfSamples : /\ NoBareLF(CrlfOf(s)) /\ CrlfOf(CrlfOf(s)) = CrlfOf(s) /\ StripCR(CrlfOf(s)) = StripCR(s)
+                               /\ (NoBareLF(s) => CrlfOf(s) = s)
+                               /\ Len(CrlfOf(s)) = Len(s) + Cardinality({i \in 1..Len(s) : s[i] = LF /\ (i = 1 \/ s[i - 1] # CR)})
 
 MFiles == {"f1", "f2"}
 Cfgs ==
   IF Sandbox
-  THEN {[ne |-> a, nw |-> b, nr |-> c, custom |-> d, failAt |-> 0 - 1, wkind |-> "plain", omode |-> "default",
+  THEN {[ne |-> a, nw |-> b, nr |-> c, custom |-> d, failAt |-> 0 - 1, wkind |-> "plain", omode |-> "default", nlmode |-> "smart",
           stdin |-> << <<c_s>> >>, pre |-> {"f1"}] :
           a \in BOOLEAN, b \in BOOLEAN, c \in BOOLEAN, d \in BOOLEAN}
-  ELSE {[ne |-> FALSE, nw |-> FALSE, nr |-> FALSE, custom |-> TRUE, failAt |-> k, wkind |-> w, omode |-> m, stdin |-> <<>>, pre |-> {"f1"}] :
-          k \in (0 - 1)..FailMax, w \in {"plain", "bufio16"}, m \in Modes}
+  ELSE {x \in {[ne |-> FALSE, nw |-> FALSE, nr |-> FALSE, custom |-> TRUE, failAt |-> k, wkind |-> w, omode |-> m, nlmode |-> nl,
+                 stdin |-> <<>>, pre |-> {"f1"}] :
+                 k \in (0 - 1)..FailMax, w \in {"plain", "bufio16"}, m \in Modes, nl \in NLs} :
+          \* CRLF newlines: default output mode, and (the failing writer adds nothing there) a writer that never fails
+          x.nlmode = "crlf" => (x.omode = "default" /\ x.failAt < 0 /\ x.wkind = "plain")}
 
-TheMenu == IF Sandbox THEN Menu(MFiles, {"lit"}, {"print"})
-           ELSE Menu(MFiles, {"lit"}, {"print", "printf"}) \cup ExtraMenu({"lit"})
+MkPrint(dest, name, mode, form, sh) == [op |-> "print", dest |-> dest, name |-> name, mode |-> mode, form |-> form, cls |-> "lit", shape |-> sh]
+MkAct(op, name, cls) == [op |-> op, name |-> name, cls |-> cls]
+SandboxNew ==
+  IF Rich = 1
+  THEN Menu(MFiles \cup NullFiles, {"lit"} \cup PathClasses, {"print"}) \cup SandboxExtra({"lit"})
+  ELSE { [op |-> "print", dest |-> "file", name |-> "/dev/null", mode |-> "trunc", form |-> "print", cls |-> "lit"],
+         [op |-> "print", dest |-> "file", name |-> "f2", mode |-> "append", form |-> "print", cls |-> "devdd"],
+         MkAct("getline_file", "/dev/null", "lit"), MkAct("getline_file", "f1", "devdd"), MkAct("operand", "f1", "dotdot"),
+         MkAct("operand", "f2", "lit"), MkAct("operand", "d1", "lit"), MkAct("operand", "", "lit"), MkAct("operand", "v=1", "lit"),
+         MkAct("system", "blank", "lit"), MkAct("getline_cmd", "empty", "lit"), MkAct("system", "spcat", "lit"),
+         [op |-> "print", dest |-> "cmd", name |-> "blank", mode |-> "pipe", form |-> "print", cls |-> "lit"] }
+DeliveryNew ==
+  IF Rich = 1 THEN ShapedPrints(MFiles, Shapes \ {"plain"})
+  ELSE { MkPrint("stdout", "", "none", "printf", "mid"), MkPrint("stdout", "", "none", "print", "crlf"), MkPrint("file", "f2", "trunc", "printf", "mid"),
+         MkPrint("file", "f1", "append", "print", "midnl"), MkPrint("cmd", "cat", "pipe", "printf", "mid"), MkPrint("file", "/dev/stderr", "trunc", "printf", "nl") }
+
+TheMenu == IF Sandbox THEN Menu(MFiles, {"lit"}, {"print"}) \cup SandboxNew
+           ELSE Menu(MFiles, {"lit"}, {"print", "printf"}) \cup ExtraMenu({"lit"}) \cup DeliveryNew
 
 VARIABLES st, cfg, last, run
 vars == <<st, cfg, last, run>>
@@ -69,23 +105,42 @@ NoReadsConfines  == st.flags.nr => (OpenModes({"read"}) = {} /\ st.everRead = {}
 DeniedEndsRun    == st.denied => st.result = "error"
 \* every touched file went through the open-file function
 TouchedAreOpened ==
-  \A n \in Files :
+  \A n \in AllFiles :
     /\ st.fsys[n] # st.fsys0[n] => \E k \in OpenModes({"trunc", "append"}) : st.opens[k].name = n
     /\ n \in st.everRead => \E k \in OpenModes({"read"}) : st.opens[k].name = n
 \* an attempt under a deny flag is refused at that very step, and a refused step opens / starts nothing
 AttemptIsDenied ==
   LET act == last.act
       starts == act.op \in {"system", "getline_cmd"} \/ (act.op = "print" /\ act.dest = "cmd")
-      writes == act.op = "print" /\ act.dest = "file" /\ act.name \in Files
-      reads  == act.op \in {"getline_file", "operand"} /\ act.name \in Files
+      \* whatever the name is and however it is spelled: any regular file, /dev/null, a directory, a missing file,
+      \* any command line (also one without a command)
+      writes == act.op = "print" /\ act.dest = "file" /\ act.name \in AllFiles
+      reads  == act.op \in {"getline_file", "operand"} /\ act.name \in AllFiles \cup Dirs
   IN /\ (st.flags.ne /\ starts /\ ~last.busy) => st.denied
      /\ (st.flags.nw /\ writes /\ ~last.busy) => st.denied
      /\ (st.flags.nr /\ reads /\ ~last.busy) => st.denied
      /\ (st.denied /\ last.act.op \notin {"finish", "exit", "rterror", "none"}) =>
            (Len(st.opens) = last.no /\ Len(st.procs) = last.np)
 
+\* /dev/null stays what it is
+NullStaysEmpty == \A n \in NullFiles : st.fsys[n] = [ex |-> TRUE, c |-> <<>>]
+\* operands that are not files open nothing and are never refused; a directory operand is refused or opened through
+\* the function, and ends the run with an error either way
+OperandKinds ==
+  /\ (last.act.op = "operand" /\ last.act.name \in SkipOperands) => (Len(st.opens) = last.no /\ ~st.denied /\ st.result = "run")
+  /\ (last.act.op = "operand" /\ last.act.name \in Dirs) =>
+        /\ st.result = "error"
+        /\ st.denied \/ (Len(st.opens) = last.no + 1 /\ st.opens[Len(st.opens)] = [name |-> last.act.name, mode |-> "read"])
+\* within a run a file is used under one spelling
+OneSpelling == st.result = "run" => \A n \in Files : (st.outs[n].open \/ st.ins[n].open) => st.spell[n] # "none"
+
 \* ------------------------------------------------------------------- C13
 Ended == st.result # "run"
+\* CRLF newlines forced on output: nothing that was written to any destination contains a bare LF
+CrlfEverywhere ==
+  st.crlf => /\ NoBareLF(st.swritten) /\ NoBareLF(st.serr)
+             /\ \A n \in AllFiles : NoBareLF(st.wr[n].data)
+             /\ \A k \in 1..Len(st.procs) : NoBareLF(st.procs[k].written)
 FileDelivered ==
   \A n \in Files : st.wr[n].used =>
     /\ st.fsys[n].c \o (IF st.outs[n].open THEN st.outs[n].buf ELSE <<>>) = st.wr[n].base \o st.wr[n].data
@@ -103,7 +158,7 @@ OneNameOneStream ==
   /\ \A n \in SNames : ~(st.outs[n].open /\ st.ins[n].open)
   /\ \A c \in Cmds : Cardinality({k \in 1..Len(st.procs) : st.procs[k].cmd = c /\ ~st.procs[k].done}) <= 1
 CloseReportsStatus ==
-  \A k \in 1..Len(st.notes) : (st.notes[k].k = "close" /\ st.notes[k].j) => st.notes[k].v \in {Status(c) : c \in OutCmds}
+  \A k \in 1..Len(st.notes) : (st.notes[k].k = "close" /\ st.notes[k].j) => st.notes[k].v \in {Status(c) : c \in OutCmds \cup InCmds}
 \* close() of a command that does not read still reports its exit status (never "not open", never a flush failure)
 CloseOfNonReader ==
   (last.act.op = "close" /\ last.busy /\ last.act.name \in NoReadCmds) =>
